@@ -495,7 +495,8 @@ pub fn cmd_admin_replay(args: &HashMap<String, String>) -> i32 {
             }
             // expected content
             if let Some(content) = st.get("content").and_then(|c| c.as_array()) {
-                if a != "OpenMissing" {
+                // (after `Pending` the logs must stay pending for the next step: no open here)
+                if a != "OpenMissing" && a != "Pending" {
                     match catch(|| Db::open(&admin_options(&dir, &cols))) {
                         Ok(Ok(db)) => {
                             let got = admin_project(&db, &cols, nkeys, nvals);
@@ -641,7 +642,10 @@ pub fn cmd_migrate_replay(args: &HashMap<String, String>) -> i32 {
         let steps = steps.as_array().unwrap();
         let mig = steps.last().unwrap();
         let grow = mig["grow"].as_bool().unwrap();
-        let uniform = grow || (seed + idx as u64) % 2 == 0;
+        // identity hashing (uniform keys, zero salt): all keys of a column share one index chunk,
+        // so removals leave holes in front of live entries
+        let zero = grow || (seed + idx as u64) % 3 == 0;
+        let uniform = zero || (seed + idx as u64) % 2 == 0;
         let nkeys = mig["dst"][0].as_array().unwrap().len() as u64;
         let scols: Vec<ColumnOptions> = mig["sopts"].as_array().unwrap().iter().map(|o| hopt(o, uniform)).collect();
         let dcols: Vec<ColumnOptions> = mig["to"].as_array().unwrap().iter().map(|o| hopt(o, uniform)).collect();
@@ -651,7 +655,7 @@ pub fn cmd_migrate_replay(args: &HashMap<String, String>) -> i32 {
         let mut viol: Vec<J> = Vec::new();
         let mut mk = |dir: &Path, cols: &[ColumnOptions]| {
             let mut o = admin_options(dir, cols);
-            if grow {
+            if zero {
                 o.salt = Some([0u8; 32]);
             }
             o
@@ -726,6 +730,118 @@ pub fn cmd_migrate_replay(args: &HashMap<String, String>) -> i32 {
         let _ = std::fs::remove_dir_all(&ddir);
     }
     let _ = std::fs::remove_dir_all(&root);
+    if nviol > 0 {
+        1
+    } else {
+        0
+    }
+}
+
+// ---------------------------------------------------------------------------
+// PageSearch (C19)
+
+/// Build the real 64-bit index entry for abstract fields (hi = bits the vectorised search
+/// compares, lo = partial-key bits it drops) at a given index size.
+fn real_entry(index_bits: u8, hi: u64, lo: u64, addr: u64) -> Option<u64> {
+    let a = index_bits as u32 + 14; // address bits
+    let shift = std::cmp::max(32, a);
+    let lo_bits = shift - a;
+    if lo >= (1u64 << lo_bits) && lo != 0 {
+        return None // the dropped bits do not exist at this index size
+    }
+    let partial_bits = 64 - a;
+    let partial = (hi << lo_bits) | lo;
+    if partial_bits < 64 && partial >= (1u64 << partial_bits) {
+        return None
+    }
+    if hi == 0 && lo == 0 && addr == 0 {
+        return Some(0)
+    }
+    Some((partial << a) | (addr & ((1u64 << a) - 1)))
+}
+
+fn real_key_prefix(index_bits: u8, hi: u64, lo: u64, noise: u64) -> Option<u64> {
+    let a = index_bits as u32 + 14;
+    let shift = std::cmp::max(32, a);
+    let lo_bits = shift - a;
+    if lo >= (1u64 << lo_bits) && lo != 0 {
+        return None
+    }
+    let partial = (hi << lo_bits) | lo;
+    // extract_key(prefix, bits) = (prefix << bits) >> address_bits
+    let top = (noise & ((1u64 << index_bits) - 1)) << (64 - index_bits as u32); // chunk index bits: arbitrary
+    let low = (noise >> 20) & ((1u64 << 14) - 1); // bits below the partial key: arbitrary
+    Some(top | (partial << 14) | low)
+}
+
+/// `pdbh pagesearch-replay --in F --out F --seed S`
+/// every case: {page:[{hi,lo,addr}], key:{hi,lo}, p, fast, base}; embedded at several block
+/// offsets of a real 64-slot chunk for several index sizes, both private functions are called
+/// through the hook and must return the specification's positions.
+pub fn cmd_pagesearch_replay(args: &HashMap<String, String>) -> i32 {
+    use rand::{Rng, SeedableRng};
+    let input = std::fs::read_to_string(&args["in"]).expect("read");
+    let seed: u64 = args.get("seed").map(|s| s.parse().unwrap()).unwrap_or(1);
+    let mut rng = rand::rngs::SmallRng::seed_from_u64(seed);
+    let mut outf = std::io::BufWriter::new(std::fs::File::create(&args["out"]).unwrap());
+    let mut nviol = 0usize;
+    let mut ncalls = 0usize;
+    for (idx, line) in input.lines().enumerate() {
+        if line.trim().is_empty() {
+            continue
+        }
+        let case: J = serde_json::from_str(line).unwrap();
+        let page = case["page"].as_array().unwrap();
+        let n = page.len();
+        let (khi, klo) = (case["key"]["hi"].as_u64().unwrap(), case["key"]["lo"].as_u64().unwrap());
+        let p = case["p"].as_u64().unwrap() as usize;
+        let want_fast = case["fast"].as_i64().unwrap();
+        let want_base = case["base"].as_i64().unwrap();
+        let mut viol: Vec<J> = Vec::new();
+        'sizes: for bits in [16u8, 17, 18, 20, 32, 40] {
+            let kp = match real_key_prefix(bits, khi, klo, rng.gen()) {
+                Some(k) => k,
+                None => continue,
+            };
+            let mut entries = Vec::new();
+            for e in page {
+                match real_entry(bits, e["hi"].as_u64().unwrap(), e["lo"].as_u64().unwrap(), e["addr"].as_u64().unwrap() * (1 + rng.gen::<u64>() % 1000)) {
+                    Some(x) => entries.push(x),
+                    None => continue 'sizes,
+                }
+            }
+            for off in [0usize, 4, 28, 56] {
+                let mut chunk = [0u8; 512];
+                for slot in 0..64usize {
+                    let v = if slot >= off && slot < off + n {
+                        entries[slot - off]
+                    } else if slot % 3 == 0 {
+                        0 // empty
+                    } else {
+                        // a used entry that matches no key of the case (compared bits = 3)
+                        real_entry(bits, 3, 0, 1 + slot as u64).unwrap()
+                    };
+                    chunk[slot * 8..slot * 8 + 8].copy_from_slice(&v.to_le_bytes());
+                }
+                for (fast, want) in [(true, want_fast), (false, want_base)] {
+                    ncalls += 1;
+                    let (entry, pos) = parity_db::verif::verif_find_entry(bits, &chunk, kp, off + p, fast);
+                    let got: i64 = if entry == 0 { -1 } else { pos as i64 - off as i64 };
+                    // slots after the embedded window never match, so absent stays absent
+                    if got != want {
+                        viol.push(json!({"a": if fast { "find_entry" } else { "find_entry_base" }, "what": format!(
+                            "index_bits {bits}, window at slot {off}, start {p}: specification says {want}, {} returned {got} (entry {entry:#x})",
+                            if fast { "the vectorised search" } else { "the scalar search" })}));
+                    }
+                }
+            }
+        }
+        nviol += viol.len();
+        if !viol.is_empty() || idx % 997 == 0 {
+            writeln!(outf, "{}", json!({"i": idx, "nontrivial": want_fast != want_base || p > 0, "violations": viol})).unwrap();
+        }
+    }
+    println!("{}", json!({"calls": ncalls, "violations": nviol}));
     if nviol > 0 {
         1
     } else {
